@@ -139,9 +139,17 @@ static void case_disk(H3Index o, int k) {
             vf_add("ring.calls", 1);
             if (!e) {
                 vf_add("ring.successes", 1);
-                if (sphere[j] != rs)
-                    vf_violation("unsafe-not-flagged", "gridRingUnsafe", key, "", "gridRingUnsafe(%016" PRIx64 ", %d) succeeded but the ring has %" PRId64 " cells", o, j, sphere[j]);
-                else {
+                if (sphere[j] != rs) {
+                    /* same mechanism test as in wrap_rings (known finding F8) */
+                    int enclosed = 0, onring = 0;
+                    for (int64_t i = 0; i < nball; i++)
+                        if (ref_is_pentagon(order[i]) && *vf_map_get(&dist, order[i]) < j) enclosed++;
+                    for (int64_t i = 0; i < rs; i++)
+                        if (ring[i] && ref_is_pentagon(ring[i])) onring = 1;
+                    int f8 = !onring && enclosed >= 6;
+                    vf_violation(f8 ? "ring-wrap" : "unsafe-not-flagged", "gridRingUnsafe", key ^ (uint64_t)j, f8 ? "ring-encloses-6plus-pentagons" : "",
+                                 "gridRingUnsafe(%016" PRIx64 ", %d) succeeded but the ring has %" PRId64 " cells (%d pentagons inside, %s on the returned ring)", o, j, sphere[j], enclosed, onring ? "one" : "none");
+                } else {
                     qsort(ring, (size_t)rs, 8, cmp_u64);
                     for (int64_t i = 0; i < rs; i++) {
                         int64_t *d = ring[i] ? vf_map_get(&dist, ring[i]) : NULL;
@@ -291,6 +299,102 @@ static void case_disks(H3Index o, int k, vf_rng *r) {
     vf_buf_free(out);
 }
 
+/* rings (and unsafe disks) of every radius up to one that wraps the globe, against whole-resolution BFS */
+static void wrap_rings(int res, int kmax, int stride) {
+    vf_resgraph g;
+    vf_case("wrapgraph %d", res);
+    if (vf_resgraph_build(&g, res)) {
+        vf_violation("error", "latLngToCell", (uint64_t)res, "", "cannot build the adjacency graph of res %d", res);
+        return;
+    }
+    int16_t *d = malloc((size_t)g.n * 2);
+    int32_t *q = malloc((size_t)g.n * 4);
+    int64_t *sph = malloc(((size_t)kmax + 2) * 8), *ball = malloc(((size_t)kmax + 2) * 8);
+    int *pent_at = malloc(((size_t)kmax + 2) * sizeof(int));
+    for (int32_t i = 0; i < g.n; i++) {
+        if (i % stride || !VF_MINE(i / stride)) continue;
+        vf_resgraph_bfs(&g, i, d, q);
+        memset(sph, 0, ((size_t)kmax + 2) * 8);
+        memset(pent_at, 0, ((size_t)kmax + 2) * sizeof(int));
+        for (int32_t j = 0; j < g.n; j++)
+            if (d[j] >= 0 && d[j] <= kmax) {
+                sph[d[j]]++;
+                if (ref_is_pentagon(g.cells[j])) pent_at[d[j]]++;
+            }
+        ball[0] = sph[0];
+        for (int k = 1; k <= kmax; k++) ball[k] = ball[k - 1] + sph[k];
+        H3Index o = g.cells[i];
+        if (!VF_GUARD()) {
+            vf_assert_report("gridRingUnsafe", o);
+            VF_UNGUARD();
+            continue;
+        }
+        for (int k = 1; k <= kmax; k++) {
+            vf_case("wrapring %016" PRIx64 " %d", o, k);
+            uint64_t key = vf_mix(o) ^ vf_mix((uint64_t)k + 0x3141);
+            int64_t rs = 6 * (int64_t)k;
+            H3Index *ring = vf_buf_new((size_t)rs * 8, 0);
+            H3Error e = gridRingUnsafe(o, k, ring);
+            vf_add("wrapring.calls", 1);
+            if (vf_buf_check(ring)) vf_violation("overrun", "gridRingUnsafe", key, "", "canary damaged (k=%d)", k);
+            if (!e) {
+                vf_add("wrapring.successes", 1);
+                int ok = sph[k] == rs;
+                H3Index badcell = 0;
+                if (ok) {
+                    qsort(ring, (size_t)rs, 8, cmp_u64);
+                    for (int64_t t = 0; t < rs && ok; t++) {
+                        int64_t *ix = vf_map_get(&g.index, ring[t]);
+                        if (!ix || d[*ix] != k || (t && ring[t] == ring[t - 1])) {
+                            ok = 0;
+                            badcell = ring[t];
+                        }
+                    }
+                }
+                if (!ok) {
+                    /* F8 signature (known_findings.json): no returned cell is a pentagon, but the disk inside the ring holds
+                     * six or more of them.  Each enclosed pentagon turns the hexagonal walk by 60 degrees; with six the
+                     * turns add up to a full one and the walk can close on its start cell, so neither the per-cell pentagon
+                     * test nor the closure test fires.  (Measured on every origin of res 0-2 and 1/40 of res 3: all 17 793
+                     * wrong successes enclose >= 6 pentagons; none encloses fewer.) */
+                    int enclosed = 0, onring = 0;
+                    for (int t = 0; t < k; t++) enclosed += pent_at[t];
+                    for (int64_t t = 0; t < rs; t++)
+                        if (ring[t] && ref_is_pentagon(ring[t])) onring = 1;
+                    const char *sig = (!onring && enclosed >= 6) ? "ring-encloses-6plus-pentagons" : "";
+                    vf_violation("ring-wrap", "gridRingUnsafe", key, sig,
+                                 "gridRingUnsafe(%016" PRIx64 ", %d) succeeded but the cells at graph distance %d number %" PRId64 " (a hexagonal ring has %" PRId64 ")%s; ball of that radius: %" PRId64 " of %d cells, %d pentagon(s) inside, %d on the ring",
+                                 o, k, k, sph[k], rs, badcell ? " / a returned cell is not at that distance" : "", ball[k], g.n, enclosed, pent_at[k]);
+                }
+            }
+            vf_buf_free(ring);
+            if (2 * ball[k] > g.n) vf_add("wrapring.radius_wraps_half_globe", 1);
+            vf_distinct(key);
+        }
+        VF_UNGUARD();
+        vf_add("wrapring.origins", 1);
+    }
+    free(d);
+    free(q);
+    free(sph);
+    free(ball);
+    free(pent_at);
+    free(g.cells);
+    free(g.adj);
+    vf_map_free(&g.index);
+}
+
+static void witness_f8(void) {
+    H3Index ring[84] = {0};
+    vf_case("wrapring 081003ffffffffff 14");
+    H3Error e = gridRingUnsafe(0x81003ffffffffffULL, 14, ring);
+    int dup = 0;
+    qsort(ring, 84, 8, cmp_u64);
+    for (int i = 1; i < 84; i++)
+        if (ring[i] == ring[i - 1]) dup++;
+    vf_witness("F8", e == 0, "gridRingUnsafe(81003ffffffffff, 14) at res 1: rc=%u (%d repeated cells among the 84 slots; only 51 cells are at graph distance 14)", e, dup);
+}
+
 static int KQ;
 static void on_cell(uint64_t h, int64_t idx, void *u) {
     vf_rng *r = u;
@@ -344,6 +448,11 @@ static void run(void) {
         }
     }
     vf_buf_free(d);
+    /* rings of every radius up to globe-wrapping ones, every origin of res 0-1, a share of res 2 */
+    if (VF.shard == 0) witness_f8();
+    wrap_rings(0, 14, 1);
+    wrap_rings(1, 30, VF_T(2, 1));
+    wrap_rings(2, 50, VF_T(60, 6));
     /* disks that wrap the globe at the coarsest resolutions */
     static const int KW[3] = {12, 25, 45};
     for (int res = 0; res <= 2; res++) {
@@ -368,6 +477,11 @@ static void replay(const char *spec) {
         case_neighbors(h, &r);
     else if (sscanf(spec, "disks %" SCNx64 " %d", &h, &k) == 2)
         case_disks(h, k, &r);
+    else if (sscanf(spec, "wrapring %" SCNx64 " %d", &h, &k) == 2) {
+        VF.nshards = 1;
+        VF.shard = 0;
+        wrap_rings(VF_RES(h), k, 1); /* all origins of that resolution up to that radius: the spec's origin is among them */
+    }
     else
         vf_fatal("bad replay spec: %s", spec);
 }
